@@ -15,7 +15,7 @@ int main(void) {
 #if MODE == 1
 	char* in = (char*)malloc(LEN ? LEN : 1);
 	for (int i = 0; i < LEN; i++) { in[i] = nondet_char(); cex_in[i] = in[i]; }
-	char* out = (char*)malloc(LEN);                       /* base64Decode: malloc(data.size()) */
+	char* out = (char*)malloc(DEC_SIZE(LEN));             /* as uscxml::base64Decode sizes it (expression extracted from Base64.hpp on this run) */
 	base64_decodestate st; base64_init_decodestate(&st);
 	int n = base64_decode_block(in, LEN, out, &st);
 #ifdef WITNESS
@@ -26,12 +26,12 @@ int main(void) {
 	char* in = (char*)malloc(LEN ? LEN : 1);
 	for (int i = 0; i < LEN; i++) { in[i] = nondet_char(); cex_in[i] = in[i]; }
 	base64_encodestate es; base64_init_encodestate(&es);
-	char* code = (char*)malloc((LEN * 14) / 10 + 814);     /* base64Encode: malloc(len * 1.4 + 814) */
+	char* code = (char*)malloc(ENC_SIZE);                  /* as uscxml::base64Encode sizes it (extracted from Base64.hpp, evaluated for LEN) */
 	int written = base64_encode_block(in, LEN, code, &es);
 	written += base64_encode_blockend(code + written, &es);
 	written--;                                            /* drop the newline */
 	__CPROVER_assert(written >= 0 && written <= ((LEN + 2) / 3) * 4, "C14: encoded length");
-	char* out = (char*)malloc(written);
+	char* out = (char*)malloc(DEC_SIZE(((LEN + 2) / 3) * 4));   /* constant size: memory safety of the decoder is mode 1's subject */
 	base64_decodestate ds; base64_init_decodestate(&ds);
 	int n = base64_decode_block(code, written, out, &ds);
 #ifdef WITNESS
